@@ -214,6 +214,7 @@ macro_rules! bytes_type {
 }
 
 fn check(ctx: &mut Ctx, s: &str, other_spelling: Option<&str>) {
+    ctx.evals += 19; // twenty (type, input) evaluations per case; run() counted one
     str_type!(ctx, s, "Iri", iref::Iri, iref::IriBuf, Prod::Ri, 2);
     str_type!(ctx, s, "IriRef", iref::IriRef, iref::IriRefBuf, Prod::RiRef, 2);
     str_type!(ctx, s, "iri::Authority", iri::Authority, iri::AuthorityBuf, Prod::Authority, 1);
@@ -313,7 +314,7 @@ pub fn generate(ctx: &mut Ctx) {
         }
         bi += 1;
     }
-    let n = ctx.by_tier(8_000u64, 400_000u64) / ctx.nshards;
+    let n = ctx.by_tier(24_000u64, 400_000u64) / ctx.nshards;
     for i in 0..n {
         let mut rng = ctx.rng("text", i);
         let mut o = gen::Opts::new(rng.chance(1, 2));
